@@ -132,6 +132,7 @@ def checkAgg : P String := do
   let l' ← pFrame
   let r' ← pFrame
   if f' != f || l' != l || r' != r then c16 := firstFail c16 "fail:operand-changed"
-  pure s!"c16={c16} corr={corr} nontrivial={if nNum ≥ 1 then 1 else 0} st_numericCols={nNum}"
+  let c20 := if c16.startsWith "fail:panic" || c16.startsWith "fail:add-panic" then c16 else "ok"
+  pure s!"c16={c16} c20={c20} corr={corr} nontrivial={if nNum ≥ 1 then 1 else 0} st_numericCols={nNum}"
 
 end Goframe.Driver
